@@ -341,6 +341,7 @@ def verify_generic(src, gen_only, pid, timeout, tier):
                 if ob.tags and pid not in ob.tags:
                     continue
                 r = driver.ObligationResult(ob, q, mname + ',generic')
+                r.renamed = getattr(vr, 'renamed', False)
                 if ob.kind.endswith(':trivial') or (ob.goal.op == 'bool' and ob.goal.args[0]):
                     r.trivial = True
                     results.append(r)
@@ -501,6 +502,10 @@ def conclude(pid, P, tier, seed, a, t0, src, results, oor, stats, functions, ext
             handled.add(key)
             if ok:
                 violations.append('VIOLATION property=%s replay=%s obligation=%s' % (pid, fn, r.name))
+            elif getattr(r, 'renamed', False):
+                # locals of this function were renamed since the contracts were locked and were paired with the old names heuristically:
+                # a failure that no input on the real code confirms may be an artefact of the pairing
+                undecided.append('UNDECIDED property=%s obligation=%s fails after renamed locals were paired heuristically and no input confirms it; see %s' % (pid, r.name, fn))
             elif getattr(r, 'support', False):
                 # a supporting contract (stated for another property) fails but no input violating THIS property was found:
                 # the proof of this property is void, the property itself is not refuted
@@ -594,6 +599,15 @@ def conclude(pid, P, tier, seed, a, t0, src, results, oor, stats, functions, ext
             cur = json.load(open(lockp)) if os.path.exists(lockp) else {}
             cur[pid] = {'keys': keys_now, 'count': len(discharged)}
             json.dump(cur, open(lockp, 'w'), indent=0, sort_keys=True)
+            # the local names of every function under contract, in order of first binding (see FnContract.verify: renamed locals)
+            loc = {}
+            for q, c in list(contract.REGISTRY.items()) + list(contract.GENERIC.items()):
+                if c.setup is not None and src.has(q):
+                    try:
+                        loc[q] = src.local_order(src.find(q))
+                    except Exception:
+                        pass
+            json.dump(loc, open(os.path.join(ROOT, 'locals.lock'), 'w'), indent=0, sort_keys=True)
         os.remove(lockp + '.flock') if os.path.exists(lockp + '.flock') else None
         print('relocked %s: %d obligations, %d stable keys' % (pid, len(discharged), len(keys_now)))
     if not results and not extras.get('tables'):
@@ -602,8 +616,18 @@ def conclude(pid, P, tier, seed, a, t0, src, results, oor, stats, functions, ext
         checker_errors.append('solver error on %s: %s' % (r.name, str(r.result.outputs)[:300]))
     missing = sorted(locked - set(keys_now) - {stable_key(r.name) for r in failed + open_} - {stable_key(r.name) for _, r in known_hits})
     if missing and not oor and not a.relock:
-        # obligations that existed on the unchanged tree are gone although no function fell out of reach
-        checker_errors.append('%d locked obligations were not generated, e.g. %s' % (len(missing), missing[:3]))
+        # Obligations that existed on the unchanged tree are gone although no function fell out of reach.  An edit may legitimately
+        # remove some (a path that no longer exists); what must not happen silently is that a unit - a function under a stream model,
+        # a ghost program, a lemma - that had obligations now produces NONE (a proof that became vacuous).
+        def unit(k):
+            parts = k.split('/')
+            return '/'.join(parts[:2]) if '@' in parts[0] else parts[0]
+        now_units = {unit(k) for k in keys_now} | {unit(stable_key(r.name)) for r in failed + open_} | {unit(stable_key(r.name)) for _, r in known_hits}
+        dead = sorted({unit(k) for k in missing} - now_units)
+        if dead:
+            checker_errors.append('%d locked obligations were not generated; %d units produce no obligation any more, e.g. %s' % (len(missing), len(dead), dead[:3]))
+        else:
+            print('NOTE property=%s %d obligations of the locked tree are no longer generated (their units still produce obligations), e.g. %s' % (pid, len(missing), missing[:2]))
     wall = time.time() - t0
     write_evidence(pid, P, tier, seed, results, discharged, failed, open_, oor, stats, functions, extras, known_hits, violations, wall, lemma_names=[n for n, l in LEMMAS.items() if pid in l.tags])
     for l in kf_lines:
